@@ -62,7 +62,7 @@ def docstring(sc) -> str:
     style, n, named = sc["style"], sc["ndoc"], sc["named"]
     if n == 0:
         return '    """Summary line."""'
-    tys = elem_types(sc["ret"])
+    tys = elem_types(sc["ret"]) if sc["mode"] == "ann" else []
     ty = lambda i: tys[i] if i < len(tys) else "int"  # noqa: E731
     if style == "NUMPYDOC":
         lines = ['    """Summary line.', "", "    Returns", "    -------"]
@@ -85,7 +85,8 @@ def concretise(scs) -> str:
         if sc["mode"] == "ann":
             out.append(f"def a{i}() -> {py(sc['ret'])}:\n{docstring(sc)}\n    ...\n\n")
         else:
-            out.append(f"def g{i}(c=0, d=0):\n" + "\n".join(body_src(sc["body"])) + "\n\n")
+            doc = (docstring(sc) + "\n") if sc["ndoc"] else ""
+            out.append(f"def g{i}(c=0, d=0):\n" + doc + "\n".join(body_src(sc["body"])) + "\n\n")
     return "\n".join(out)
 
 
